@@ -27,13 +27,22 @@ use simcore::{self as sim, RunResult, check, worker::Scenario};
 use crate::kutil::*;
 
 pub fn scenarios() -> Vec<Scenario> {
-    vec![Scenario {
-        name: "ops_mix",
-        property: "C02",
-        engine: "K",
-        run: ops_mix,
-        weight: 1,
-    }]
+    vec![
+        Scenario {
+            name: "ops_mix",
+            property: "C02",
+            engine: "K",
+            run: ops_mix,
+            weight: 1,
+        },
+        Scenario {
+            name: "pool_through_driver",
+            property: "C17",
+            engine: "K",
+            run: pool_through_driver,
+            weight: 1,
+        },
+    ]
 }
 
 #[derive(Clone, Copy, Debug, PartialEq)]
@@ -57,6 +66,10 @@ enum Lane {
     /// writes several chunks and closes: results queued behind each other, the last one included, arrive in
     /// order and complete
     Multi,
+    /// a long run of one-byte reads, each of which has to wait for its byte (the peer writes it a microsecond
+    /// after the read was issued): a descriptor event in every turn of the event loop for a millisecond or
+    /// more, while the other lanes' completions (blocking-pool results among them) want to be noticed
+    Chatter,
 }
 
 #[derive(Clone, Debug)]
@@ -69,7 +82,7 @@ struct Plan {
 }
 
 fn gen_plan() -> Plan {
-    let lane = [Lane::PipeReads, Lane::UnixReads, Lane::UnixWrites, Lane::File, Lane::Meta, Lane::Pool, Lane::Duplex, Lane::HandOver, Lane::DupReads, Lane::Multi][sim::choose("lane", 10)];
+    let lane = [Lane::PipeReads, Lane::UnixReads, Lane::UnixWrites, Lane::File, Lane::Meta, Lane::Pool, Lane::Duplex, Lane::HandOver, Lane::DupReads, Lane::Multi, Lane::Chatter][sim::choose("lane", 11)];
     let n = 1 + sim::range("lane.ops", 0, 4) as usize;
     // distinct sizes, so that a swapped buffer is also visible in its capacity
     let ops = (0..n).map(|k| 1 + k * 3 + 16 * sim::range("op.size", 0, 6) as usize).collect();
@@ -103,8 +116,30 @@ fn fnv(b: &[u8]) -> u64 {
 }
 
 fn ops_mix() -> RunResult {
-    let cfg = simkernel::KConfig::draw();
     let plans: Vec<Plan> = (0..1 + sim::range("lanes", 0, 3)).map(|_| gen_plan()).collect();
+    run_plans(plans)
+}
+
+/// C17, the driver's half: results of blocking-pool jobs reach their submitters, promptly, whatever else the
+/// event loop is busy with (descriptor events in every turn, other completions), on both drivers.
+fn pool_through_driver() -> RunResult {
+    let mut plans = Vec::new();
+    for _ in 0..1 + sim::range("pool.lanes", 0, 2) {
+        let n = 1 + sim::range("lane.ops", 0, 4) as usize;
+        plans.push(Plan { lane: Lane::Pool, ops: (0..n).map(|k| 1 + k * 3 + 16 * sim::range("op.size", 0, 6) as usize).collect(), feed: vec![(0, 1)] });
+    }
+    for _ in 0..sim::range("other.lanes", 0, 2) {
+        let mut p = gen_plan();
+        if sim::flip("chatter", 1, 2) {
+            p.lane = Lane::Chatter;
+        }
+        plans.push(p);
+    }
+    run_plans(plans)
+}
+
+fn run_plans(plans: Vec<Plan>) -> RunResult {
+    let cfg = simkernel::KConfig::draw();
     let capacity = 1u32 << sim::range("ring.capacity.log2", 0, 4);
     let seed = sim::subseed("payload");
     sim::log(|| format!("ring capacity {capacity}; {cfg:?}"));
@@ -155,7 +190,7 @@ fn ops_mix() -> RunResult {
     let seen = seen.borrow();
     // exactly once: one outcome per operation issued
     for (li, p) in plans.iter().enumerate() {
-        if matches!(p.lane, Lane::Meta | Lane::Pool | Lane::Duplex | Lane::HandOver | Lane::DupReads | Lane::Multi) {
+        if matches!(p.lane, Lane::Meta | Lane::Pool | Lane::Duplex | Lane::HandOver | Lane::DupReads | Lane::Multi | Lane::Chatter) {
             continue;
         }
         for k in 0..p.ops.len() {
@@ -573,11 +608,39 @@ async fn lane(li: usize, p: Plan, seed: u64, concurrent: bool, errs: &Errs, seen
                 errs.push("stream-content", format!("lane {li}: the multishot read delivered {} bytes up to the end of the stream, the peer wrote {total}: {}", got.len(), first_diff(&got, &table)));
             }
         }
+        Lane::Chatter => {
+            let Ok((a, b)) = std::os::unix::net::UnixStream::pair() else { return };
+            let Ok(s) = compio_net::UnixStream::from_std(a) else { return };
+            let peer = Rc::new(RefCell::new(b));
+            let rounds = 400 + 100 * p.ops.len();
+            let mut r = &s;
+            for k in 0..rounds {
+                let peer2 = peer.clone();
+                simkernel::at(at(1), String::new(), move || {
+                    let _ = peer2.borrow_mut().write_all(&[k as u8]);
+                });
+                let BufResult(res, b) = r.read(Vec::with_capacity(1)).await;
+                if !matches!(res, Ok(1)) || b != [k as u8] {
+                    errs.push("stream-content", format!("lane {li}: round {k} of a one-byte ping read {res:?} {b:?}"));
+                    break;
+                }
+            }
+            keep.borrow_mut().push(Box::new(peer));
+        }
         Lane::Pool => {
-            let hs: Vec<_> = p.ops.iter().copied().enumerate().map(|(k, len)| compio_runtime::spawn_blocking(move || (k, len * 3 + 1))).collect();
-            for (k, h) in hs.into_iter().enumerate() {
-                match h.await {
-                    Ok((kk, v)) if kk == k && v == p.ops[k] * 3 + 1 => {}
+            // each job notes when it ran; its submitter notes when it saw the result
+            let jobs = p.ops.iter().copied().enumerate().map(|(k, len)| async move {
+                let h = compio_runtime::spawn_blocking(move || (k, len * 3 + 1, simkernel::now_ns()));
+                let r = h.await;
+                (k, r, simkernel::now_ns())
+            });
+            for (k, r, seen_ns) in futures_util::future::join_all(jobs).await {
+                match r {
+                    Ok((kk, v, ran_ns)) if kk == k && v == p.ops[k] * 3 + 1 => {
+                        if seen_ns > ran_ns + SLACK_NS {
+                            errs.push("left-waiting", format!("lane {li} blocking job {k}: it ran to its end and its submitter saw the result only {} ns later", seen_ns - ran_ns));
+                        }
+                    }
                     other => errs.push("swapped-result", format!("lane {li} blocking job {k}: returned {other:?}")),
                 }
             }
